@@ -26,8 +26,9 @@ def take(flag, default=None):
 only = take('--fam')
 sims = take('--sims')
 procs = int(take('--procs', '4'))
+altbin = take('--bin')      # a prebuilt eng binary (e.g. built with an overlay that leaves a repair out) instead of the tree's
 if prop not in ('c01', 'c03', 'c08', 'c09'):
-    print('usage: trace_try.py c01|c03|c08|c09 [--tier quick|thorough] [--fam substring] [--sims N] [--procs N] [--replay file]')
+    print('usage: trace_try.py c01|c03|c08|c09 [--tier quick|thorough] [--fam substring] [--sims N] [--procs N] [--bin harness-binary] [--replay file]')
     sys.exit(2)
 
 core.EVID = os.path.join(core.BUILD, 'trace_try', 'evidence')
@@ -37,7 +38,7 @@ import trace_fams
 
 c = core.Check(prop.upper(), 'model_checking', argv=argv)
 c.setup()
-binp = c.gobuild('eng')
+binp = altbin or c.gobuild('eng')
 if c.replay:
     ec.replay_one(c, binp)
 fams = getattr(trace_fams, prop)(c)
@@ -90,12 +91,15 @@ def binding_selftest():
     return rejected
 
 
-selftest = binding_selftest() if not only else {}
+selftest = binding_selftest() if not only and (prop == 'c01' or not c.quick) else {}   # quick tier: once (C01); thorough: every property
 t0 = time.time()
 tot, stats, samples, nontriv, cover = ec.run_families(c, fams, binp, NONTRIVIAL[prop], procs=procs)
 c.log('trace families of %s: %d behaviours, %d steps, %d simulated, %d non-trivial in %.0fs' % (
     prop.upper(), tot['behaviours'], tot['steps'], tot['sims'], nontriv, time.time() - t0))
 c.log('harness stats: ' + ', '.join('%s=%d' % kv for kv in sorted(stats.items())))
+if c.violations:
+    sigs = sorted({v[0] for v in c.violations})
+    c.log('%d distinct violation signatures: %s' % (len(sigs), '; '.join(sigs)[:6000]))
 c.cov.update(states=tot['states'], transitions=tot['transitions'], traces_validated_against_impl=0,
              behaviours_replayed=tot['behaviours'], steps_replayed=tot['steps'], simulated_behaviours=tot['sims'],
              evaluations=tot['behaviours'], distinct_nontrivial=nontriv, harness_stats=stats, binding_selftest_rejected=selftest,
